@@ -63,6 +63,7 @@ type coreOpts struct {
 	keys          [][]byte
 	ha            bool // single node with an in-memory HA lock: unseal goes to standby, then acquires leadership
 	retryBase     time.Duration // base of the revocation retry back-off (0 = the default of 10s)
+	crossNSIdentity bool        // unsafe_cross_namespace_identity: identity groups may have members from other namespaces
 }
 
 // errCoreWedged: a core did not finish its shutdown within the harness' patience (a liveness problem outside the
@@ -121,6 +122,7 @@ func newCoreConfig(ct *caseT, o *coreOpts) *CoreConfig {
 	}
 	conf.NumExpirationWorkers = numExpirationWorkersTest
 	conf.ExpirationRevokeRetryBase = o.retryBase
+	conf.UnsafeCrossNamespaceIdentity = o.crossNSIdentity
 	if o.ha {
 		hab, err := inmem.NewInmemHA(nil, log.NewNullLogger())
 		if err != nil {
